@@ -1,5 +1,6 @@
 """C11 - PCA-CD scores each component on aligned supports and alarms via Page-Hinkley."""
 from .. import drv_pca as D
+from .. import containers as C
 
 
 def run(ctx):
@@ -11,6 +12,8 @@ def run(ctx):
         p = D.params(rng)
         if i % 7 == 0:
             p["divergence_metric"], p["ev_threshold"] = "intersection", 0.99     # several components, histogram metric
+        if i % 3 != 0:
+            C.choose(rng, p, ("array2d", "array1d", "list2d", "list1d", "frame", "series", "reused1d", "reused2d", "tuple"))
         W = p["window_size"]
         d = rng.randint(2, 4)
         xs = D.stream(rng, rng.randint(6, 9) * W, d, W)
